@@ -35,8 +35,8 @@ ASSUME = [
     "returned and that nobody disposed has not started",
 ]
 
-QUICK = dict(cap1=20, rnd1=3, n2=10, cap2=14, rnd2=2, bound=2, procs=8)
-THOROUGH = dict(cap1=2500, rnd1=300, n2=500, cap2=250, rnd2=30, bound=3, procs=8)
+QUICK = dict(cap1=18, rnd1=3, n2=8, cap2=14, rnd2=2, bound=2, procs=8)
+THOROUGH = dict(cap1=600, rnd1=100, n2=150, cap2=100, rnd2=10, bound=3, procs=8)
 
 NEEDED_ACTIONS = ["NextOp", "SchedCall", "SchedEnqueue", "SchedAssign", "SchedRet", "DispCall", "CancelPop", "CancelSet",
                   "DispMarshal", "DispAwait", "DispRet", "CancelDone", "PostDispose", "Wake", "RunInterval", "Stage2Timer", "Stage2Assign",
@@ -88,13 +88,20 @@ def run(tier: str) -> int:
         jobs += [(sc, P["bound"], P["cap2"], P["rnd2"], ck.seed, "rel", False) for sc in pick2]
         if tier == "thorough":
             conc = [sc for sc in scs1 if sc["scn"][0]["d"] > 0]
-            jobs += [(sc, 2, 300, 20, ck.seed + 1, "td", False) for sc in conc]
-            jobs += [(sc, 2, 300, 20, ck.seed + 2, "abs", False) for sc in conc]
-            jobs += [(sc, 2, 400, 20, ck.seed + 3, "rel", True) for sc in scs1 if sc["scn"][0]["dw"] != "none"]
+            # the same scenarios with the delay passed as a timedelta / through schedule_absolute, and with the disposable
+            # classes in the switch-point focus as well
+            jobs += [(sc, 2, 150, 15, ck.seed + 1, "td", False) for sc in conc]
+            jobs += [(sc, 2, 150, 15, ck.seed + 2, "abs", False) for sc in conc]
+            jobs += [(sc, 2, 200, 15, ck.seed + 3, "rel", True) for sc in scs1 if sc["scn"][0]["dw"] != "none"]
+            # three threads: a second foreign thread G (one schedules, the other disposes)
+            scsg, rg = ac.export_scenarios(2, "FamGExport", foreign=("F", "G"))
+            ck.add_tlc(rg, "scenario family exported, 3 threads")
+            ck.note("scenario_family_3_threads", len(scsg))
+            jobs += [(sc, 2, 150, 15, ck.seed + 4, "rel", False) for sc in rnd.sample(scsg, min(120, len(scsg)))]
         # longest first: the scenarios with a foreign thread at work while the loop runs
         jobs.sort(key=lambda j: -sum(1 for it in j[0]["scn"] if "F" in (it["sw"], it["dw"])) * j[2])
         t0 = time.time()
-        tot = ac.conc_check(ck, jobs, pool, "real executions", mech_sample=24 if q else None)
+        tot = ac.conc_check(ck, jobs, pool, "real executions", mech_sample=16 if q else 1200)
         ck.note("exploration_and_validation_wall_s", round(time.time() - t0, 1))
         for k, v in tot.items():
             ck.note("conc_" + k, v)
